@@ -108,6 +108,20 @@ func suiteRepeat(c *Ctx) error {
 			job{"scan-pebble-exact", root, []string{"scan", "--no-sandbox", "--db", pdb, "--exact", root}},
 			job{"scan-json", root, []string{"scan", "--no-sandbox", "--db", jdb, "--threshold", "0.6", root}},
 		)
+		// a tree in which many files cannot be analysed (40 empty .go files in two directories next to one
+		// good file): the report names every one of them, in an order no schedule may influence
+		broken := filepath.Join(c.Work, fmt.Sprintf("broken%d", ti))
+		os.MkdirAll(filepath.Join(broken, "p", "q"), 0o755)
+		os.WriteFile(filepath.Join(broken, "go.mod"), []byte("module brokenmod\n\ngo 1.22\n"), 0o644)
+		os.WriteFile(filepath.Join(broken, "ok.go"), []byte("package brokenmod\n\n"+shapeFn("Fine", 0)), 0o644)
+		for k := 0; k < 40; k++ {
+			sub := "p"
+			if k%2 == 1 {
+				sub = filepath.Join("p", "q")
+			}
+			os.WriteFile(filepath.Join(broken, sub, fmt.Sprintf("e%02d.go", k)), nil, 0o644)
+		}
+		jobs = append(jobs, job{"scan-pebble-many-unanalysable-files", broken, []string{"scan", "--no-sandbox", "--db", pdb, "--threshold", "0.6", broken}})
 		// diff pair: several same-shape renames + added/removed/edited functions
 		oldD := filepath.Join(c.Work, fmt.Sprintf("pair%d_old", ti))
 		newD := filepath.Join(c.Work, fmt.Sprintf("pair%d_new", ti))
